@@ -28,7 +28,7 @@ CLASSES = {'sanitizer', 'crash', 'ledger', 'leak', 'junk-dependence', 'reuse', '
 
 def gen_scn(rng, idx=0):
     tables = scenario.TABLE_OPTS[idx % len(scenario.TABLE_OPTS)]
-    return scenario.gen_scenario(rng, want={'flavors': ['nr', 'nr', 'r', 'r', 'c99'], 'tables': tables})
+    return scenario.gen_scenario(rng, want={'flavors': ['nr', 'nr', 'r', 'r', 'c99', 'cxx'], 'tables': tables})
 
 
 def gen_plan(rng, sc):
@@ -184,6 +184,7 @@ def work(ctx, idx):
             wr.notes.append('scn %d unbuildable (%s): %s' % (idx, b.stage, b.msg.strip()[:200]))
         return wr
     wr.scenarios = 1
+    wr.stats['back-end:' + sc.flavor] += 1
     plans = [('p%d' % j, gen_plan(ctx.rng('scn', idx, 'plan', j), sc)) for j in range(cfg['plans'])]
     res = common.run_batch(b.exe, [(k, p.text()) for k, p in plans])
     per_class = collections.Counter()
